@@ -1,6 +1,7 @@
 package main
 
 import (
+	"fmt"
 	"go/token"
 	"go/types"
 	"strings"
@@ -35,6 +36,32 @@ func checkC01(p *Program, r *Result) {
 	checkPopulateCopies(p, r, "C01.c")
 	checkSlotOwnership(p, r, "C01.c")
 	checkBindingKeys(p, r, "C01.d")
+	checkDecoderLimits(p, r, "C01.z")
+}
+
+// checkDecoderLimits: the chunk decoders must accept everything the writer's own encoders can emit at any level;
+// options that cap what a decoder accepts (window, memory) break the round trip for the stronger levels / large
+// chunks only. The readers bound memory through MaxDecompressedChunkSize / makeSafe instead.
+func checkDecoderLimits(p *Program, r *Result, rule string) {
+	r.rule(rule, "chunk decoders are constructed without acceptance-limiting options", 1)
+	n, bad := 0, 0
+	for _, fn := range p.repoFunctions(pkgMcap) {
+		for _, ci := range callsIn(fn, func(ssa.CallInstruction) bool { return true }) {
+			name := staticCalleeName(ci.Common())
+			if strings.HasSuffix(name, "zstd.NewReader") || strings.HasSuffix(name, "lz4/v4.NewReader") {
+				n++
+			}
+			if strings.Contains(name, "compress/zstd.WithDecoderMaxWindow") || strings.Contains(name, "compress/zstd.WithDecoderMaxMemory") ||
+				strings.Contains(name, "compress/zstd.WithDecoderLowmem") && false {
+				bad++
+				r.violated(rule, funcName(fn), "decoder option "+trimPkg(name), p.pos(ci.Pos()),
+					"the chunk decoder is restricted below what the writer's encoder may announce (window/memory grow with the compression level and chunk size); files written at the stronger levels would not read back")
+			}
+		}
+	}
+	if bad == 0 {
+		r.held(rule, "mcap (reader side)", "no acceptance-limiting decoder option", "", fmt.Sprintf("%d decoder constructions, none restricted", n))
+	}
 }
 
 // checkParseAliasing: byte-slice fields of the structs returned by Parse* must be fresh.
